@@ -284,18 +284,72 @@ impl C12 {
         }
         std::fs::write("build.ninja", &m).unwrap();
         let mut out = CaseOut { evals: 1, nontrivial: !junk.is_empty(), ..Default::default() };
-        let child = std::process::Command::new("timeout").args(["-s", "KILL", "8"]).arg(crate::bb::n2_binary()).args(["-j", "1", "out"]).stdin(std::process::Stdio::null()).output();
-        match child {
+        // a thread panic leaves n2 waiting forever: once "panicked" shows up on stderr the verdict is known; without
+        // it n2 gets a generous minute (a loaded machine is no violation)
+        use std::io::Read;
+        let spawned = std::process::Command::new(crate::bb::n2_binary()).args(["-j", "1", "out"]).stdin(std::process::Stdio::null()).stdout(std::process::Stdio::piped()).stderr(std::process::Stdio::piped()).spawn();
+        match spawned {
             Err(e) => out.viols.push(Viol::new("INFRA", "cannot-run-n2", format!("cannot run n2: {}", e))),
-            Ok(o) => {
-                let so = String::from_utf8_lossy(&o.stdout).into_owned();
-                let se = String::from_utf8_lossy(&o.stderr).into_owned();
+            Ok(mut ch) => {
+                let errbuf = std::sync::Arc::new(std::sync::Mutex::new(Vec::<u8>::new()));
+                let outbuf = std::sync::Arc::new(std::sync::Mutex::new(Vec::<u8>::new()));
+                let mut handles = vec![];
+                if let Some(mut e) = ch.stderr.take() {
+                    let b = errbuf.clone();
+                    handles.push(std::thread::spawn(move || {
+                        let mut tmp = [0u8; 4096];
+                        while let Ok(n) = e.read(&mut tmp) {
+                            if n == 0 {
+                                break;
+                            }
+                            b.lock().unwrap().extend_from_slice(&tmp[..n]);
+                        }
+                    }));
+                }
+                if let Some(mut o) = ch.stdout.take() {
+                    let b = outbuf.clone();
+                    handles.push(std::thread::spawn(move || {
+                        let mut tmp = [0u8; 4096];
+                        while let Ok(n) = o.read(&mut tmp) {
+                            if n == 0 {
+                                break;
+                            }
+                            b.lock().unwrap().extend_from_slice(&tmp[..n]);
+                        }
+                    }));
+                }
+                let t0 = std::time::Instant::now();
+                let mut panic_seen: Option<std::time::Instant> = None;
+                let mut status = None;
+                let mut hung = false;
+                loop {
+                    if let Ok(Some(st)) = ch.try_wait() {
+                        status = Some(st);
+                        break;
+                    }
+                    if panic_seen.is_none() && String::from_utf8_lossy(&errbuf.lock().unwrap()).contains("panicked") {
+                        panic_seen = Some(std::time::Instant::now());
+                    }
+                    if panic_seen.map(|p| p.elapsed().as_millis() > 1500).unwrap_or(false) || t0.elapsed().as_secs() >= 60 {
+                        hung = true;
+                        let _ = ch.kill();
+                        let _ = ch.wait();
+                        break;
+                    }
+                    std::thread::sleep(std::time::Duration::from_millis(10));
+                }
+                for h in handles {
+                    let _ = h.join();
+                }
+                let so = String::from_utf8_lossy(&outbuf.lock().unwrap()).into_owned();
+                let se = String::from_utf8_lossy(&errbuf.lock().unwrap()).into_owned();
+                let code = status.and_then(|s| s.code());
                 if se.contains("panicked") || so.contains("panicked") {
-                    out.viols.push(Viol::new("C12", "binary-panicked", format!("n2 panicked while building with this manifest: {}", se.lines().find(|l| l.contains("panicked")).unwrap_or("").chars().take(200).collect::<String>())));
-                } else if o.status.code() == Some(137) || o.status.code().is_none() {
-                    out.viols.push(Viol::new("INFRA", "watchdog", "n2 did not finish within 8 s".to_string()));
-                } else if !(o.status.code() == Some(0) || (o.status.code() == Some(1) && (so.contains("n2: error: ") || so.contains("failed: ")))) {
-                    out.viols.push(Viol::new("C12", "exit-status", format!("exit {:?} without an error or failed line: {:?}", o.status.code(), so.chars().take(200).collect::<String>())));
+                    out.viols.push(Viol::new("C12", "binary-panicked", format!("n2 panicked while building with this manifest{}: {}", if hung { " (and then hung)" } else { "" }, se.lines().find(|l| l.contains("panicked")).unwrap_or("").chars().take(200).collect::<String>())));
+                } else if hung || status.map(|s| s.code().is_none()).unwrap_or(true) {
+                    out.viols.push(Viol::new("INFRA", "watchdog", "n2 did not finish within 60 s or was killed".to_string()));
+                } else if !(code == Some(0) || (code == Some(1) && (so.contains("n2: error: ") || so.contains("failed: ")))) {
+                    out.viols.push(Viol::new("C12", "exit-status", format!("exit {:?} without an error or failed line: {:?}", code, so.chars().take(200).collect::<String>())));
                 }
             }
         }
